@@ -588,6 +588,14 @@ pub fn c08_scenarios(ns: &[u64], waits: &[WaitK]) -> Vec<Scn> {
                     vec![op(RecvView, R0), op(RecvView, R0)],
                 ];
                 out.push(s);
+                // blocking view iterator
+                let mut s = Scn::new("c08-iterwith-until-end", cfg);
+                s.prefix = vec![op(IntoSingle, R0)];
+                s.threads = vec![
+                    vec![opv(SendRetry, S0, 1), opv(SendRetry, S0, 2), op(DropH, S0)],
+                    vec![op(IterWithAll, R0)],
+                ];
+                out.push(s);
                 // blocking iterator
                 let mut s = Scn::new("c08-iter-until-end", cfg);
                 s.threads = vec![
@@ -854,6 +862,37 @@ pub fn c12_scenarios(ns: &[u64]) -> Vec<Scn> {
             ];
             out.push(s);
         }
+    }
+    // futures receivers: into_single(op) / transform_operation / into_multi
+    // between polls (each conversion re-registers the stream)
+    for &n in ns {
+        let cfg = qf(Flavour::B, n, (0, 0));
+        let mut s = Scn::new("c12-fut-single-transform-multi-roundtrip", cfg);
+        s.prefix = prep(St::One, n, &[R0]);
+        s.threads = vec![
+            vec![
+                op(PollS, R0),
+                op(IntoSingle, R0),
+                op(PollS, R0),
+                op(Transform, R0),
+                op(PollS, R0),
+                op(IntoMulti, R0),
+                op(PollS, R0),
+            ],
+            vec![opv(TrySend, S0, 1), opv(TrySend, S0, 2), opv(TrySend, S0, 3)],
+        ];
+        out.push(s);
+    }
+    {
+        // the move-out futures flavour has default spin counts only: long executions
+        let cfg = qf(Flavour::M, 1, (0, 0));
+        let mut s = Scn::new("c12-mpmcfut-single-transform-multi-roundtrip", cfg);
+        s.prefix = prep(St::One, 1, &[R0]);
+        s.threads = vec![
+            vec![op(TryRecv, R0), op(IntoSingle, R0), op(TryRecv, R0), op(Transform, R0), op(TryRecv, R0), op(IntoMulti, R0), op(TryRecv, R0)],
+            vec![opv(TrySend, S0, 1), opv(TrySend, S0, 2), opv(TrySend, S0, 3)],
+        ];
+        out.push(s);
     }
     for s in out.iter_mut() {
         s.tags = &["C12", "C01", "C02", "C03", "C06"];
@@ -1289,6 +1328,14 @@ pub fn tasks(prop: &str, tier: Tier) -> Vec<Task> {
                 push_all(&mut t, trio_scenarios(ns_q, false, traffic_tags), false);
                 push_all(&mut t, quad_scenarios(&[2], traffic_tags), false);
             }
+            if prop == "C03" {
+                // requested capacities that are not powers of two (0 -> 1, 3 -> 4)
+                push_all(
+                    &mut t,
+                    pair_scenarios(&[0, 3], &[St::Full, St::StaleCache, St::WrappedFull], false, traffic_tags),
+                    thorough,
+                );
+            }
             if prop == "C06" || prop == "C03" {
                 // structural scenarios end with the same probe
                 push_all(&mut t, c11_scenarios(ns_q, false), thorough);
@@ -1342,6 +1389,28 @@ pub fn tasks(prop: &str, tier: Tier) -> Vec<Task> {
         "C12" => push_all(&mut t, c12_scenarios(ns), thorough),
         "C13" => push_all(&mut t, c13_scenarios(ns), thorough),
         "C14" => {
+            {
+                // the move-out futures flavour (default spin counts only)
+                let cfg = qf(Flavour::M, 1, (0, 0));
+                let mut s = Scn::new("c14-mpmcfut-sink2-stream-all", cfg);
+                s.threads = vec![
+                    vec![opv(SinkSend, S0, 1), opv(SinkSend, S0, 2), op(DropH, S0)],
+                    vec![op(StreamAll, R0)],
+                ];
+                s.tags = &["C14", "C01", "C02"];
+                s.hang_prop = "C14";
+                s.post = Post::Drain;
+                s.horizon = 200_000;
+                t.push(task_sh(s, 1, 4));
+                let mut s = Scn::new("c14-mpmcfut-sink-parked-vs-direct-tryrecv", cfg);
+                s.prefix = prep(St::Full, 1, &[R0]);
+                s.threads = vec![vec![opv(SinkSend, S0, 1)], vec![op(TryRecv, R0)]];
+                s.tags = &["C14"];
+                s.hang_prop = "C14";
+                s.post = Post::Drain;
+                s.horizon = 200_000;
+                t.push(task_sh(s, 1, 4));
+            }
             if thorough {
                 push_all(&mut t, c14_scenarios(ns_q, &[(0, 0), (1, 1)]), true);
                 for s in c14_scenarios(&[1], &[(50, 50)]) {
@@ -1362,7 +1431,13 @@ pub fn tasks(prop: &str, tier: Tier) -> Vec<Task> {
             push_all(&mut t, c12_scenarios(ns_q), thorough);
             push_all(&mut t, c05_scenarios(&[1]), thorough);
         }
-        "C18" => push_all(&mut t, c18_scenarios(ns), thorough),
+        "C18" => {
+            push_all(&mut t, c18_scenarios(ns), thorough);
+            // ordinary schedules as well: a try operation preempted in the middle,
+            // others moving on, is still bounded in its own steps
+            push_all(&mut t, trio_scenarios(ns_q, false, traffic_tags), thorough);
+            push_all(&mut t, c04_scenarios(ns_q), thorough);
+        }
         _ => {}
     }
     t
